@@ -27,6 +27,7 @@ const c15Mime = "application/x-tinode-webrtc"
 func c15Gen(rt *rapid.T) wProg {
 	p := wProg{}
 	p.Cfg = wConfig{Users: 3, NoPush: true, Calls: !gPct(rt, 8), CallTimeout: gPick(rt, []int{3, 3, 8}, "timeout"), Root: gPct(rt, 25)}
+	p.Cfg.CallsOffIce = !p.Cfg.Calls && gPct(rt, 60)
 	p.Sess = append([]int(nil), gPick(rt, [][]int{{0, 1, 2}, {0, 0, 1, 1, 2}, {0, 1, 1, 2}, {0, 0, 1, 2}}, "layout")...)
 	gGrpc(rt, &p, 20)
 	first := map[int]int{}
@@ -84,6 +85,10 @@ func c15Gen(rt *rapid.T) wProg {
 			ev := gPick(rt, []string{"ringing", "accept", "accept", "offer", "answer", "ice-candidate", "hang-up", "hang-up", "bogus"}, "ev")
 			sel := gPick(rt, []int{1, 1, 1, 1, 1, 2, 3}, "sel") // current / finished / wrong call id
 			op := wOp{K: "note", S: s, T: topicFor(s), A: "call", B: ev, M: sel}
+			if gPct(rt, 14) {
+				// addressed by the full name of the main stage's topic: by a participant or by the third user
+				op.T = "Q01"
+			}
 			if ev == "offer" || ev == "answer" || ev == "ice-candidate" {
 				op.H = map[string]any{"sdp": fmt.Sprintf("x%d", i)}
 			}
